@@ -240,6 +240,42 @@ Proof.
 Qed.
 Print Assumptions C03_held_answer_refuted.
 
+(* The dataplane add fails ([EvSbFail]: onVPPSessionCreated with an error -> tearDownSessionAfterVPPFailure).  From EVERY
+   state, every variant: when the oldest queued add belongs to a live session, that session is out of the indexes in the
+   same step and the pools get back what terminate releases.  C03_gate, C03_unaccepted_inert, C03_reject_clean's
+   continuation, C03_lcp_down_marked and C03_alloc_needs_accept quantify over histories containing this event. *)
+Theorem C03_dataplane_failure_teardown : forall v st i g q s,
+  queue st = (i, g) :: q -> nth_error (sl st) i = Some s -> gen s = g -> live s = true ->
+  exists s',
+    nth_error (sl (fst (step v st EvSbFail))) i = Some s' /\
+    live s' = false /\ ph s' = PTerminate /\
+    free (fst (step v st EvSbFail)) = free st + lease s /\
+    free6 (fst (step v st EvSbFail)) = add6 (free6 st) s /\
+    queue (fst (step v st EvSbFail)) = q.
+Proof. exact GateReject.sb_fail_step_clean. Qed.
+Print Assumptions C03_dataplane_failure_teardown.
+Example C03_dataplane_failure_nonvacuous :
+  let v := mkV true false in
+  let evs := ev_open6 ++ [EvFrame 0 (FrIpcp (FCreq QGood)); EvFrame 0 (FrIpcp (FCack true)); EvFrame 0 FrDh6Req] in
+  let st := fst (run v (init3 2 16 16) evs) in
+  (* Open, add queued, IPv4 + IA_NA + prefix held: the hypotheses are met ... *)
+  queue st = [(0, 1)] /\ option_map (fun s => (live s, gen s, ph s)) (nth_error (sl st) 0) = Some (true, 1, POpen) /\
+  free st = 1 /\ free6 st = (15, 15) /\
+  (* ... the failure report ends the session and returns all three leases; the next frame is not served *)
+  free (fst (step v st EvSbFail)) = 2 /\ free6 (fst (step v st EvSbFail)) = (16, 16) /\
+  map snd (snd (step v st EvSbFail)) = [OLifeR; OSbDel; OLifeR; GLcpDown] /\
+  snd (step v (fst (step v st EvSbFail)) (EvFrame 0 FrRs)) = [] /\
+  (* the success report keeps it *)
+  free (fst (step v st EvSbOk)) = 1 /\ map snd (snd (step v st EvSbOk)) = [OProg] /\
+  (* a failure report with nothing queued changes nothing *)
+  step v (fst (step v st EvSbOk)) EvSbFail = (fst (step v st EvSbOk), []) /\
+  (* a failure report for a session PADT has already torn down: ignored; /repo HEAD ([vsf] = false, known finding
+     pppoe-vpp-failure-after-teardown) runs the teardown a second time *)
+  snd (step v (fst (step v st (EvPadt 0))) EvSbFail) = [] /\
+  map snd (snd (step (mkV5 true false true true false) (fst (step v st (EvPadt 0))) EvSbFail)) = [OLifeR; OSbDel; OLifeR].
+Proof. intros v evs st. repeat match goal with |- _ /\ _ => split end; timeout 20 (vm_compute; reflexivity). Qed.
+Print Assumptions C03_dataplane_failure_nonvacuous.
+
 (* C03_renegotiation_reauth.  Split any history at a point where slot i's monitor holds no accept (mn1; in
    particular right after LCP left Opened, [C03_lcp_down_clears_accept]).  If in the continuation no allowed AAA
    answer arrives for the request the slot has most recently published, the continuation contains no service
